@@ -32,6 +32,19 @@ class Mod:
             self.src = f.read()
         self.src_lines = self.src.split('\n')
         self.facts = None
+        # compiler directives of a Cython source: `# cython: name=value, ...` comment lines before any code (the build sets none besides language_level)
+        self.directives = {}
+        if self.is_pyx:
+            for ln in self.src_lines:
+                ls = ln.strip()
+                if not ls: continue
+                if not ls.startswith('#'): break
+                m_ = re.match(r'#\s*cython\s*:\s*(.*)$', ls)
+                if m_:
+                    for part in m_.group(1).split(','):
+                        if '=' in part:
+                            k_, v_ = part.split('=', 1)
+                            self.directives[k_.strip()] = v_.strip()
         if self.is_pyx:
             try:
                 py, self.facts = pyxfront.convert(self.src)
